@@ -1,6 +1,7 @@
 import SyneTune.Base.Wire
 import SyneTune.Model.Tuner
 import SyneTune.Lemmas.TunerWitnessData
+import SyneTune.Lemmas.TunerC12bWitness
 /-
 Driver for stream `loop` (C01, C12, C13-loop, C17, C20-loop): run with
 `lake env lean --run SyneTune/Drivers/Loop.lean`.
@@ -265,10 +266,11 @@ def jAns : Ans → Json
   | .status st => jObj [("st", jS st.toString)]
 
 /-- op `witness`: the configuration and the dialogue (calls and answers at the calling control
-points, in order) of a named witness of `Lemmas/TunerWitnessData.lean` -/
+points, in order) of a named witness of `Lemmas/TunerWitnessData.lean` / `Lemmas/TunerC12bWitness.lean`, the
+count-based part of its stopping criterion and the counters the model ends with (`expect`) -/
 def witnessOp (j : Json) : Except String Json := do
   let name ← getStr j "name"
-  match Witness.byName name with
+  match (Witness.byName name <|> Witness.byName12b name) with
   | none => return jErr s!"unknown witness {name}"
   | some (c, as) =>
     let rec go (s : LState) (as : List Ans) (acc : List Json) : List Json :=
@@ -285,6 +287,12 @@ def witnessOp (j : Json) : Except String Json := do
       ("wait", Json.bool c.wait), ("swd", Json.bool c.swd), ("delete_checkpoints", Json.bool c.deleteCkpt),
       ("ckpt_cb", Json.bool c.ckptCb), ("store", Json.bool c.store),
       ("max_num_trials_started", jOptN c.crit.maxStarted),
+      ("max_num_trials_completed", jOptN c.crit.maxCompleted), ("max_num_trials_finished", jOptN c.crit.maxFinished),
+      ("max_num_evaluations", jOptN c.crit.maxEvals),
+      ("expect", jObj [("started", jNat fin.status.numStarted), ("completed", jNat fin.status.numCompleted),
+        ("failed", jNat fin.status.numFailed), ("finished", jNat fin.status.numFinished),
+        ("running", jNat fin.status.numRunning), ("evaluations", jNat fin.status.overall.count),
+        ("backend_trials", jNat fin.nStarted), ("raised", Json.bool fin.err.isSome)]),
       ("dialogue", jArr dlg), ("ends", jCall (pending fin))])
 
 def loopStep (d : DState) (j : Json) : Except String (DState × Json) := do
